@@ -660,6 +660,7 @@ func runScenario(t *wirecodec.Table, sc *scen, o *out) {
 			expUID, expGID = uint64(uid), uint64(gid)
 		}
 	}
+	var followNames []string
 	invoke := func() {
 	switch sc.M {
 	case "Walk", "WalkGetAttr":
@@ -690,6 +691,7 @@ func runScenario(t *wirecodec.Table, sc *scen, o *out) {
 				_ = f
 			}
 		}
+		followNames = names
 	case "StatFS":
 		s, e := target.StatFS()
 		cerr = e
@@ -851,6 +853,29 @@ func runScenario(t *wirecodec.Table, sc *scen, o *out) {
 	w.mu.Unlock()
 	firstErr := cerr
 	firstRet := ret
+	// the same operation again with NO names (a clone), right after one with names: the receiving
+	// peer must reconstruct the empty list that was sent, not the previous message's (Wire.tla:
+	// a counted list of 0 elements)
+	if cerr == nil && len(followNames) > 0 && sc.Kind != "err" {
+		gmu.Lock()
+		before := len(got)
+		gmu.Unlock()
+		var e2 error
+		if sc.M == "Walk" {
+			_, _, e2 = target.Walk(nil)
+		} else {
+			_, _, _, _, e2 = target.WalkGetAttr(nil)
+		}
+		gmu.Lock()
+		for _, c := range got[before:] {
+			if (c.k == "Walk" || c.k == "WalkGetAttr") && len(c.names) > 0 {
+				o.add("C01", fmt.Sprintf("%s: a zero-name %s sent right after it reached the backend as Walk(%q): the peer did not reconstruct the empty name list", desc, sc.M, c.names))
+			}
+		}
+		got = got[:before]
+		gmu.Unlock()
+		_ = e2
+	}
 	retried, retryErr, retryCalls := false, error(nil), 0
 	switch sc.M {
 	case "Open", "Mkdir", "GetAttr", "SetAttr", "StatFS", "ReadAt", "WriteAt", "FSync", "Lock", "Symlink", "Mknod", "Link", "UnlinkAt", "Readdir", "Readlink", "RenameAt":
